@@ -28,6 +28,8 @@ BATCH = 40
 # ---------------------------------------------------------------------------------------------
 def type_open(tree):
     """result type not documented: `x and y` on non-bool operands (Python would return an operand)"""
+    if tree[0] == "conv" and tree[1] == "assign":
+        return True  # the conversion happens in the assignment to the port: the expression itself has the source type
     return tree[0] == "bool" and any(V.typeof(e) != V.BOOL for e in tree[2])
 
 
@@ -63,14 +65,15 @@ def build_source(items, contexts=("c", "q")):
                     scaffold.append(f"            g{i}_{slot}[{j}] <<= self.e{i}_{slot}_{j}")
             else:
                 ports.append(f"    e{i}_{slot} = Port.input({G.py_type(t)})")
-        text = G.render(tree, leaf)
         ot = G.py_type(out_type(tree))
-        if "c" in contexts:
-            ports.append(f"    c{i} = Port.output({ot})")
-            conc.append(f"            self.c{i} <<= _T(('c', {i}), {text})")
-        if "q" in contexts:
-            ports.append(f"    q{i} = Port.output({ot})")
-            seq.append(f"            self.q{i} <<= _T(('q', {i}), {text})")
+        for ctx, body in (("c", conc), ("q", seq)):
+            if ctx not in contexts:
+                continue
+            prelude = {"lines": [], "prefix": f"cv{ctx}{i}_"}
+            text = G.render(tree, leaf, "hw", prelude)
+            ports.append(f"    {ctx}{i} = Port.output({ot})")
+            body.extend("            " + ln for ln in prelude["lines"])
+            body.append(f"            self.{ctx}{i} <<= _T(('{ctx}', {i}), {text})")
     src = [G.HEADER, "", "class T(Entity):"] + ports + ["", "    def architecture(self):"] + locals_
     if scaffold:
         src += ["        @std.concurrent", "        def scaffold():"] + scaffold
@@ -238,6 +241,10 @@ def _check_live(live, vals, out, contexts, allow_split):
         return
     status, info = compile_items(live, contexts)
     if status == "rejected":
+        if len(live) == 1 and len(contexts) > 1 and "'conv'" in repr(live[0][1]):
+            # conversion forms may be legal in one kind of context only (Variable): decide per context
+            _split_contexts(live, out, contexts, info)
+            return
         if len(live) == 1:
             i = live[0][0]
             out[i].update(status="rejected", error=info["error"], probed_types=_probed(info, i))
@@ -340,7 +347,11 @@ def _split_contexts(live, out, contexts, info):
             merged["problems"] = merged.get("problems", []) + sub.get("problems", [])
             merged["evaluations"] = merged.get("evaluations", 0) + sub.get("evaluations", 0)
             merged["open"] = merged.get("open", 0) + sub.get("open", 0)
-            if sub["status"] != "ok" and merged["status"] == "ok":
+            rank = {"violation": 3, "tool": 2, "ok": 1, "rejected": 0, "skipped": 0}
+            if rank.get(sub["status"], 0) > rank.get(merged["status"], 0):
+                for kk in ("valuations", "distinct", "outside"):
+                    if kk in sub:
+                        merged[kk] = sub[kk]
                 merged["status"] = sub["status"]
     merged["src"] = info["src"]
     out[i] = merged
